@@ -374,6 +374,82 @@ static void cs_step(char **tok, int n) {
 		} RLC_FINALLY {
 			bn_free(d); bn_free(r); bn_free(s); ec_free(q);
 		}
+	} else if (!strcmp(it, "W_PSI")) {
+		/* RSA-accumulator set intersection, both roles in this context / thread (small modulus) */
+		bn_t g, nn, d, r, x[3], y[3], pp[3], t[3], u[3], z[3];
+		size_t len = 0;
+		bn_null(g); bn_null(nn); bn_null(d); bn_null(r);
+		for (int i = 0; i < 3; i++) { bn_null(x[i]); bn_null(y[i]); bn_null(pp[i]); bn_null(t[i]); bn_null(u[i]); bn_null(z[i]); }
+		RLC_TRY {
+			bn_new(g); bn_new(nn); bn_new(d); bn_new(r);
+			for (int i = 0; i < 3; i++) { bn_new(x[i]); bn_new(y[i]); bn_new(pp[i]); bn_new(t[i]); bn_new(u[i]); bn_new(z[i]); }
+			cp_rsapsi_gen(g, nn, 192);
+			for (int i = 0; i < 3; i++) { bn_rand(x[i], RLC_POS, 64); bn_rand(y[i], RLC_POS, 65); bn_set_bit(y[i], 64, 1); }
+			bn_copy(y[1], x[2]);
+			cp_rsapsi_ask(d, r, pp, g, nn, (const bn_t *)x, 3);
+			cp_rsapsi_ans(t, u, d, g, nn, (const bn_t *)y, 3);
+			cp_rsapsi_int(z, &len, r, (const bn_t *)pp, nn, (const bn_t *)x, 3, (const bn_t *)t, (const bn_t *)u, 3);
+			tr_printf("W_PSI len=%zu hit=%d", len, len == 1 && bn_cmp(z[0], x[2]) == RLC_EQ);
+			cs_hex_bn("d", d);
+			tr_str("\n");
+		} RLC_CATCH_ANY {
+			tr_str("W_PSI THROWN\n");
+		} RLC_FINALLY {
+			bn_free(g); bn_free(nn); bn_free(d); bn_free(r);
+			for (int i = 0; i < 3; i++) { bn_free(x[i]); bn_free(y[i]); bn_free(pp[i]); bn_free(t[i]); bn_free(u[i]); bn_free(z[i]); }
+		}
+	} else if (!strcmp(it, "W_HASH")) {
+		/* hashing, MAC and key derivation of a seeded message */
+		uint8_t m[80], out[96];
+		size_t ml = 1 + (size_t)(n > 1 ? atoi(tok[1]) % 79 : 9);
+		RLC_TRY {
+			rand_bytes(m, ml);
+			md_map(out, m, ml);
+			md_hmac(out + 32, m, ml, m, ml < 16 ? ml : 16);
+			md_kdf(out + 64, 32, m, ml);
+			tr_str("W_HASH o="); tr_hex(out, 96); tr_str("\n");
+		} RLC_CATCH_ANY {
+			tr_str("W_HASH THROWN\n");
+		}
+	} else if (!strcmp(it, "W_SSS")) {
+		bn_t x[4], y[4], sec, key, ord_;
+		bn_null(sec); bn_null(key); bn_null(ord_);
+		for (int i = 0; i < 4; i++) { bn_null(x[i]); bn_null(y[i]); }
+		RLC_TRY {
+			bn_new(sec); bn_new(key); bn_new(ord_);
+			for (int i = 0; i < 4; i++) { bn_new(x[i]); bn_new(y[i]); }
+			bn_gen_prime(ord_, 96);
+			bn_rand_mod(sec, ord_);
+			mpc_sss_gen(x, y, sec, ord_, 3, 4);
+			mpc_sss_key(key, (const bn_t *)(x + 1), (const bn_t *)(y + 1), ord_, 3);
+			tr_printf("W_SSS ok=%d", bn_cmp(key, sec) == RLC_EQ);
+			cs_hex_bn("y", y[3]);
+			tr_str("\n");
+		} RLC_CATCH_ANY {
+			tr_str("W_SSS THROWN\n");
+		} RLC_FINALLY {
+			bn_free(sec); bn_free(key); bn_free(ord_);
+			for (int i = 0; i < 4; i++) { bn_free(x[i]); bn_free(y[i]); }
+		}
+	} else if (!strcmp(it, "W_ECIES")) {
+		bn_t d;
+		ec_t q, r;
+		uint8_t m[40], c[128], o[128];
+		size_t cl = sizeof(c), ol = sizeof(o);
+		bn_null(d); ec_null(q); ec_null(r);
+		RLC_TRY {
+			bn_new(d); ec_new(q); ec_new(r);
+			rand_bytes(m, sizeof(m));
+			cp_ecies_gen(d, q);
+			int r1 = cp_ecies_enc(r, c, &cl, m, sizeof(m), q);
+			int r2 = cp_ecies_dec(o, &ol, r, c, cl, d);
+			tr_printf("W_ECIES rc=%d%d same=%d c=", r1 != RLC_OK, r2 != RLC_OK, ol == sizeof(m) && memcmp(o, m, sizeof(m)) == 0);
+			tr_hex(c, 32); tr_str("\n");
+		} RLC_CATCH_ANY {
+			tr_str("W_ECIES THROWN\n");
+		} RLC_FINALLY {
+			bn_free(d); ec_free(q); ec_free(r);
+		}
 	} else if (!strcmp(it, "W_PAIR")) {
 		g1_t p;
 		g2_t q;
